@@ -265,7 +265,10 @@ func init() {
 			w.Ledger.SetPlan(nil)
 			return w.viol("res.lookup", "fault-free lookup on #%d failed: %v", c.CID, err)
 		}
-		counts := map[string]int{"cmp": w.Ctl.Count["cmp"], "hip": w.Ctl.Count["hip"], "read": w.Ledger.nRead}
+		counts := map[string]int{"cmp": w.Ctl.Count["cmp"], "hip": w.Ctl.Count["hip"], "read": w.Ledger.nRead, "decode": w.Ctl.Count["decode"]}
+		if counts["decode"] > 12 {
+			counts["decode"] = 12 // the element decoder is called once per stored element: the first dozen positions
+		}
 		w.Ledger.SetPlan(nil)
 		if mutating {
 			evict()
@@ -274,7 +277,7 @@ func init() {
 		if err != nil {
 			return w.viol("harness", "%v", err)
 		}
-		for _, kind := range []string{"read", "cmp", "hip"} {
+		for _, kind := range []string{"read", "cmp", "hip", "decode"} {
 			n := counts[kind]
 			if n > 40 {
 				n = 40 // a long iteration: the first 40 positions are enumerated
@@ -300,7 +303,15 @@ func init() {
 					continue // the call sequence is shorter on this attempt (cache effects): nothing injected
 				}
 				w.Stats.Inc("fault.callback." + kind)
-				if !wrapsInjected(err) {
+				if kind == "decode" {
+					// the caller's element decoder failed while a slab was being decoded: the property names no category
+					// for it (the library reports a decoding failure); demanded: an error, no trace, and - below - that
+					// the lookup is served when repeated (a slab that failed to decode once must not be remembered as
+					// absent or half-built)
+					if err == nil {
+						return w.viol("lookupfault.category", "%s on #%d whose %d-th element-decoder call failed returned no error", st.Sub, c.CID, k)
+					}
+				} else if !wrapsInjected(err) {
 					return w.viol("lookupfault.category", "%s on #%d with the %d-th %s call failing returned %T (%s) %v; want an external error wrapping the injected one", st.Sub, c.CID, k, kind, rawErr, errCategory(rawErr), rawErr)
 				}
 				if mutating {
